@@ -309,7 +309,15 @@ impl TxInputsBuilder {
     pub(crate) fn get_used_plutus_lang_versions(&self) -> BTreeSet<Language> {
         let mut used_langs = BTreeSet::new();
         for input_with_wit in self.required_witnesses.scripts.values() {
-            for (_, script_wit) in input_with_wit {
+            for (input, script_wit) in input_with_wit {
+                // like get_plutus_input_scripts: a witness counts only while its input is still a script input
+                let is_script_input = self
+                    .inputs
+                    .get(input)
+                    .map_or(false, |(_, hash_option)| hash_option.is_some());
+                if !is_script_input {
+                    continue;
+                }
                 if let Some(ScriptWitnessType::PlutusScriptWitness(plutus_witness)) = script_wit {
                     used_langs.insert(plutus_witness.script.language());
                 }
